@@ -978,6 +978,16 @@ impl SparqlDatabase {
     }
 
     pub fn parse_turtle(&mut self, turtle_data: &str) {
+        // Statement state lives across lines: `s p o ;` may continue on the next line
+        // (this is what generate_turtle writes) and only `.` ends the statement.
+        let mut subject_raw: Option<String> = None;
+        let mut predicate_raw: Option<String> = None;
+        let mut object_tokens: Vec<String> = Vec::new();
+
+        let mut expect_subject = true;
+        let mut expect_predicate = false;
+        let mut expect_object = false;
+
         for raw_line in turtle_data.lines() {
             let line = raw_line.trim();
 
@@ -1010,14 +1020,6 @@ impl SparqlDatabase {
 
             // Tokenize, but keep ; , . as delimiters only when outside URIs, literals, and quoted triples.
             let tokens = Self::tokenize_turtle_star_line(line);
-
-            let mut subject_raw: Option<String> = None;
-            let mut predicate_raw: Option<String> = None;
-            let mut object_tokens: Vec<String> = Vec::new();
-
-            let mut expect_subject = true;
-            let mut expect_predicate = false;
-            let mut expect_object = false;
 
             let flush_object = |this: &mut Self,
                                 subject_raw: &Option<String>,
